@@ -22,13 +22,14 @@ type B implements P { n: String }
 type C implements P { n: String }
 input In { f: Int = %(k)d }
 enum E { COMMON  X%(k)d }
-type Query { v: String  sc: Sc  hd: Hd  dv: String @d  p: P  p2: P  q(i: In, e: E): String }
+type Query { v: String  sc: Sc  hd: Hd  dv: String @d  p: P  p2: P  q(i: In, e: E): String  w%(wargs)s: String }
 type Subscription { ev: String }
 """
 
 
 def sdl_of(k):
-    return SDL_T % {"k": k}
+    # the same field with a required argument in odd bundles, with optional arguments only in even ones
+    return SDL_T % {"k": k, "wargs": "(a: Int!)" if k % 2 else "(a: Int, b: Int)"}
 TYPES = ["A", "B", "C"]
 
 
@@ -42,6 +43,10 @@ def reg_a(t, k, sn):
     @t.Resolver("Query.sc", **kw)
     async def rsc(parent, args, ctx, info):
         return "x"
+
+    @t.Resolver("Query.w", **kw)
+    async def rw(parent, args, ctx, info):
+        return "W%d" % k
 
     @t.Resolver("Query.hd", **kw)
     async def rhd(parent, args, ctx, info):
@@ -131,6 +136,7 @@ def probe(eng, k):
     r = loop.run(eng.execute("{ v sc dv p { __typename } p2 { __typename } }"))
     r2 = loop.run(eng.execute("query ($i: In, $e: E) { q(i: $i, e: $e) }", variables={"i": {}, "e": "X%d" % k}))
     hd = [(loop.run(eng.execute("{ hd }")).get("data") or {}).get("hd") for _ in range(2)]
+    r3 = loop.run(eng.execute("{ w(a: 1) }" if k % 2 else "{ w }"))
 
     async def first():
         agen = eng.subscribe("subscription { ev }")
@@ -142,12 +148,12 @@ def probe(eng, k):
     d = r.get("data") or {}
     return {"resolvers": d.get("v"), "scalars": d.get("sc"), "directives": d.get("dv"),
             "type_resolvers": (d.get("p") or {}).get("__typename"), "subscriptions": (s.get("data") or {}).get("ev"),
-            "sdl": (r2.get("data") or {}).get("q"), "shared_scalar_class": hd, "field_type_resolver": (d.get("p2") or {}).get("__typename"),
-            "errors": (r.get("errors") or []) + (s.get("errors") or []) + (r2.get("errors") or [])}
+            "sdl": "%s|%s" % ((r2.get("data") or {}).get("q"), (r3.get("data") or {}).get("w")), "shared_scalar_class": hd, "field_type_resolver": (d.get("p2") or {}).get("__typename"),
+            "errors": (r.get("errors") or []) + (s.get("errors") or []) + (r2.get("errors") or []) + (r3.get("errors") or [])}
 
 
 def expected(kind, k):
-    return {"resolvers": "R%d" % k, "scalars": "S%d:x" % k, "directives": "y|D%d" % k, "type_resolvers": TYPES[k - 1], "subscriptions": "E%d" % k, "sdl": "%d/X%d" % (k, k)}[kind]
+    return {"resolvers": "R%d" % k, "scalars": "S%d:x" % k, "directives": "y|D%d" % k, "type_resolvers": TYPES[k - 1], "subscriptions": "E%d" % k, "sdl": "%d/X%d|W%d" % (k, k, k)}[kind]
 
 
 def run_history(steps, use_default_for=None, tag=""):
